@@ -51,7 +51,10 @@ def run_life_check(chk: Check, prop, prop_file, kind, monitor, n_quick, n_thorou
             sc, s = sessions[i]
             acts, notes = LT.project_life(s.sim.events)
             cases.append((bool(sc["disc_cb"]), acts))
-        ok, res, err = LT.replay_life(prop.lower() + "_life", cases, JOIN_US, JOIN_US)
+        from ..common import gen_params
+
+        gp = gen_params()
+        ok, res, err = LT.replay_life(prop.lower() + "_life", cases, gp.get("p_join_sender", JOIN_US), gp.get("p_join_reader", JOIN_US))
         if not ok:
             chk.obligation_broken(f"cases {prop.lower()}_life", (err or "")[-800:])
         else:
@@ -86,7 +89,7 @@ def run_life_check(chk: Check, prop, prop_file, kind, monitor, n_quick, n_thorou
                 sc, s = sessions[i]
                 acts, notes = CT.project(s.sim.events)
                 cases2.append((sc["log_size"] if sc["log_size"] <= 1000 else 10000, acts))
-            ok, res, err = CT.replay_cases(prop.lower() + "_conn", cases2, CS.SPACING, CS.KEEPALIVE)
+            ok, res, err = CT.replay_cases(prop.lower() + "_conn", cases2, CS.code_spacing(), CS.code_keepalive())
             if not ok:
                 chk.obligation_broken(f"cases {prop.lower()}_conn", (err or "")[-800:])
             else:
